@@ -16,7 +16,7 @@ RULE = ('(wertheim-thiele) one-component hard spheres, PY with and without the h
         'r_max in {10.24, 20.48}, base dr in {0.04, 0.02}, refinement family dr, dr/2, dr/4: contact value (linear extrapolation of the '
         'first two grid points outside the core), S(k) at the 64 lowest k (shared by the family) against 1/(1-rho c_WT(k)) with c_WT(k) by '
         'Gauss-Legendre quadrature, S(k_min) against (1-eta)^4/(1+2eta)^2, c(r) at fixed r in {0.2,0.4,0.8,1.52} (grid points of every member) (on a copy) -- each '
-        'with (i) error <= C(eta) dr, (ii) halving ratio in [0.4,0.6], (iii) Richardson value within C2(eta) dr^2. (dilute) every '
+        'with (i) error <= C(eta) dr, (ii) halving ratio <= 0.6 (faster is fine), (iii) Richardson value within C2(eta) dr^2. (dilute) every '
         'shipped potential with generated parameters, kT in [0.7,3], closure PY / HNC / MSA+flag, density family rho0, rho0/10, rho0/100 '
         '(rho0 in [1e-3,1e-2]) plus one really vanishing density in [1e-12,1e-7] on grids dr and dr/2: |g - g_ref| <= K rho pointwise with g_ref = exp(-u/kT) (PY,HNC) or 1-u/kT outside '
         'the core (MSA), deviation linear in rho (ratio per decade in [5,20]), second_virial against -2 pi int (g_ref-1) r sin(kr)/k dr by '
@@ -93,7 +93,8 @@ def refinement_judge(out, sig, what, errs, vals, exact, scale, C, C2, dr0, detai
             continue
         lo_hi = ratio_bounds
         ratio = errs[lev] / errs[lev - 1]
-        if not (lo_hi[0] <= ratio <= lo_hi[1]):
+        # only the upper limit is demanded: an error that shrinks FASTER than first order still satisfies the statement
+        if not (ratio <= lo_hi[1]):
             out.fail(sig + what + '/error-does-not-halve', '%s: error ratio %.3f when dr is halved (errors %s) (%s)' % (what, ratio, ['%.3g' % x for x in errs], detail))
             return
     rich = 2 * np.asarray(vals[2]) - np.asarray(vals[1])
@@ -233,6 +234,9 @@ class Dilute(Sub):
         if name == 'Exponential':
             # "sufficiently fine domains": the tail of width alpha must be resolved by the grid
             spec = dict(spec, dr=min(spec['dr'], 0.05 if spec['potential'][1]['alpha'] <= 0.25 else 0.1))
+        if name == 'WeeksChandlerAndersen':
+            # the whole non-zero part of the WCA tail lies between sigma and 1.122 sigma: it is resolved by the grid only for dr << 0.12
+            spec = dict(spec, dr=min(spec['dr'], 0.025))
         out.label('potential=' + name, 'closure=' + spec['closure'] + ('+flag' if spec['flag'] else ''))
         devs, b2 = {}, {}
         for dr in (spec['dr'], spec['dr'] / 2):
@@ -276,7 +280,9 @@ class Dilute(Sub):
                     name, spec['closure'], spec['kT'], rho, dev, r[i], float(devs[m][3][i]), float(devs[m][4][i]), K * rho), potential=spec['potential'])
                 return out
         for m in (1, 2):
-            if devs[m - 1][0] > 1e-8 and devs[m][0] > 1e-10:
+            # "linear in rho" is a statement about the limit: the ratio is demanded where the larger of the two deviations is already
+            # small against the reference itself (5 %), i.e. where the O(rho^2) term can only be a few per cent of the O(rho) term
+            if devs[m - 1][0] > 1e-8 and devs[m][0] > 1e-10 and devs[m - 1][0] <= 0.05 * max(1.0, float(np.max(gref[judged]))):
                 ratio = devs[m - 1][0] / devs[m][0]
                 if not (5.0 <= ratio <= 20.0):
                     out.fail(sig + 'deviation-not-linear-in-density', '%s/%s: max|g-g_ref| goes %.3g -> %.3g when rho is divided by 10 (ratio %.2f)' % (
@@ -299,7 +305,7 @@ class Dilute(Sub):
             out.fail(sig + 'second-virial', '%s/%s kT=%.3g: second_virial = %r, -2 pi int (g_ref-1) r^2 dr (same k->0 extrapolation) = %r (rel. error %.3g, allowed %.3g)' % (
                 name, spec['closure'], spec['kT'], b2[spec['dr']], want[True], e1, K2 * spec['dr'] + 10 * M * rho))
             return out
-        if e1 > 0.02 and not (0.35 <= e2 / e1 <= 0.65):
+        if e1 > 0.02 and not (e2 / e1 <= 0.65):
             out.fail(sig + 'second-virial-error-does-not-halve', '%s/%s: second_virial error goes %.3g -> %.3g when dr is halved' % (name, spec['closure'], e1, e2))
         rich = abs(2 * b2[spec['dr'] / 2] - b2[spec['dr']] - want[True]) / scale
         if rich > 5.0 * max(1.0, float(np.max(np.abs(f)))) * spec['dr'] ** 2 + 10 * M * rho + 1e-6:
